@@ -96,6 +96,7 @@ let monitors : ((string * string) * (val0 -> val0 -> val0)) list = [
   (("C10", "hub"), mon_C10);
   (("C12", "hub"), mon_C12);
   (("C13", "hub"), mon_C13);
+  (("C11", "hub"), mon_C11);
 ]
 
 let first_diff (a : val0) (b : val0) : int =
